@@ -348,6 +348,91 @@ func init() {
 		return strings.TrimSpace(strconv.FormatUint(next, 10) + " " + strings.Join(keys, " "))
 	})
 	register("dump", func(a []string) string { return dumpStore(stores[a[0]]) })
+
+	// ---- alias stream (C18): keep what the store handed out, look at it again later
+	register("hold", func(a []string) string {
+		e, err := stores[a[0]].Get(u64(a[1]))
+		if err != nil {
+			return kvErr(err)
+		}
+		keep(e.Value())
+		return fmtEntry(e)
+	})
+	register("holdpage", func(a []string) string {
+		k := stores[a[0]]
+		cursor := lastCursor[a[0]]
+		if a[1] != "@" {
+			cursor = u64(a[1])
+		}
+		var keys []string
+		next, err := k.Scan(cursor, atoi(a[2]), func(e storage.Entry) bool {
+			keys = append(keys, hx([]byte(e.Key())))
+			keep(e.Value())
+			return true
+		})
+		if err != nil {
+			return kvErr(err)
+		}
+		lastCursor[a[0]] = next
+		return strings.TrimSpace(strconv.FormatUint(next, 10) + " " + strings.Join(keys, " "))
+	})
+	register("heldcheck", func(a []string) string {
+		for i, h := range held {
+			if !bytesEqual(h.live, h.saved) {
+				return fmt.Sprintf("changed %d was=%s now=%s", i, hx(h.saved), hx(h.live))
+			}
+		}
+		return "ok " + strconv.Itoa(len(held))
+	})
+	register("poke", func(a []string) string {
+		i := atoi(a[0])
+		if i >= len(held) {
+			return "none"
+		}
+		if len(held[i].live) == 0 {
+			return "empty"
+		}
+		for j := range held[i].live {
+			held[i].live[j] ^= 0xff
+		}
+		held[i].saved = append([]byte{}, held[i].live...)
+		return "poked"
+	})
+	register("putbuf", func(a []string) string {
+		// Put, then reuse (scribble over) the buffers that were passed in
+		k := stores[a[0]]
+		key, val := unhx(a[2]), unhx(a[3])
+		e := newEntry(key, val, i64(a[4]), i64(a[5]))
+		err := k.Put(u64(a[1]), e)
+		for j := range val {
+			val[j] = 0xEE
+		}
+		for j := range key {
+			key[j] = 0xEE
+		}
+		return kvErr(err)
+	})
+}
+
+type heldValue struct {
+	live  []byte // the very slice the store handed out
+	saved []byte // its content at that moment
+}
+
+var held []heldValue
+
+func keep(v []byte) { held = append(held, heldValue{v, append([]byte{}, v...)}) }
+
+func bytesEqual(a, b []byte) bool {
+	if len(a) != len(b) {
+		return false
+	}
+	for i := range a {
+		if a[i] != b[i] {
+			return false
+		}
+	}
+	return true
 }
 
 func regexpQuote(b []byte) string {
